@@ -427,6 +427,96 @@ fn one_case(rep: &mut Report, model: &mut Model, rng: &mut Rng, case_no: u64) {
     }
 }
 
+/// Configuration files that are valid JSON but do not fit the configuration's shape, with a secret
+/// sitting where the shape goes wrong (a provider block written one level too high, a header token
+/// left unquoted, a header block written as one string, a key wrapped in a list or an object...).
+/// Such a file must not make any diagnostic quote the secret. Oracle-only: the doctor, a run and
+/// every file under the scratch directory (other than the configuration file itself) are searched.
+fn misshaped_case(rep: &mut Report, rng: &mut Rng, case_no: u64) {
+    let scratch = Scratch::new("c19m");
+    let data_dir = scratch.path().join("data");
+    let ws = scratch.path().join("ws");
+    let home = scratch.path().join("home");
+    std::fs::create_dir_all(&ws).unwrap();
+    std::fs::create_dir_all(&home).unwrap();
+    for v in ENV_VARS {
+        std::env::remove_var(v);
+    }
+    std::env::set_var("RIP_CONFIG_HOME", &home);
+    let canary = format!("CANARY-M{case_no}-s3cr3t");
+    // a numeric token: long enough not to occur by accident
+    let number: u64 = 481_516_000_000_000 + case_no * 7919 + rng.below(1000);
+    let shape = rng.below(12);
+    let ep = "http://127.0.0.1:9/v1/responses";
+    let (layer, what): (Value, &str) = match shape {
+        0 => (json!({"provider": {"endpoint": ep, "api_key": canary}}), "provider fields one level too high"),
+        1 => (json!({"provider": {"p1": {"endpoint": ep, "headers": {"x-token": number}}}}), "unquoted numeric header token"),
+        2 => (json!({"provider": {"p1": {"endpoint": ep, "headers": format!("Authorization: Bearer {canary}")}}}), "header block written as one string"),
+        3 => (json!({"provider": {"p1": {"endpoint": ep, "api_key": [canary]}}}), "api key wrapped in a list"),
+        4 => (json!({"provider": {"p1": {"endpoint": ep, "api_key": {"value": canary}}}}), "api key wrapped in an object of the wrong kind"),
+        5 => (json!({"provider": {"p1": canary}}), "a string where a provider block belongs"),
+        6 => (json!({"provider": [canary]}), "a list where the provider map belongs"),
+        7 => (json!({"provider": {"p1": {"endpoint": ep, "api_key": number}}}), "numeric api key"),
+        8 => (json!({"provider": {"p1": {"endpoint": ep, "api_key": {"env": number}}}}), "numeric env reference"),
+        9 => (json!({"provider": {"p1": {"endpoint": 5, "api_key": canary, "headers": {"x-token": canary}}}}), "a well-formed secret next to a mistyped field"),
+        10 => (json!({"provider": {"p1": {"endpoint": ep, "headers": {"x-token": [canary]}}}}), "header value wrapped in a list"),
+        _ => (json!({"provider": {"p1": {"endpoint": ep, "api_key": canary}}, "roles": canary, "model": {"key": canary}}), "mistyped route next to a well-formed secret"),
+    };
+    let slot = if rng.chance(1, 2) { home.join("config.json") } else { ws.join("rip.json") };
+    let text = if rng.chance(1, 4) { format!("// layer\n{}\n", serde_json::to_string_pretty(&layer).unwrap()) } else { layer.to_string() };
+    std::fs::write(&slot, text).unwrap();
+    let rt = tokio::runtime::Builder::new_multi_thread().worker_threads(2).enable_all().build().unwrap();
+    let mut responses: Vec<(String, Vec<u8>)> = Vec::new();
+    {
+        let app = ripd::verif_export::VerifApp::new(data_dir.clone(), ws.clone());
+        rt.block_on(async {
+            let (_, body) = call(&app.router, "GET", "/config/doctor", None).await;
+            responses.push(("GET /config/doctor".into(), body));
+            let (_, v) = call_json(&app.router, "POST", "/threads/ensure", None).await;
+            let tid = v["thread_id"].as_str().unwrap_or("").to_string();
+            let (_, raw) = call(&app.router, "POST", &format!("/threads/{tid}/messages"), Some(json!({"content": "hello"}))).await;
+            let v: Value = serde_json::from_slice(&raw).unwrap_or(Value::Null);
+            responses.push(("POST /threads/{id}/messages".into(), raw));
+            let sid = v["session_id"].as_str().unwrap_or("").to_string();
+            for _ in 0..500 {
+                let text = std::fs::read_to_string(data_dir.join("events.jsonl")).unwrap_or_default();
+                if text.lines().any(|l| l.contains("continuity_run_ended") && l.contains(&sid)) {
+                    break;
+                }
+                tokio::time::sleep(std::time::Duration::from_millis(10)).await;
+            }
+            let evs = sse_collect(&app.router, &format!("/sessions/{sid}/events"), 800, |v| v["type"] == "session_ended").await;
+            responses.push(("GET /sessions/{id}/events".into(), serde_json::to_vec(&evs).unwrap()));
+        });
+    }
+    drop(rt);
+    rep.evaluations += 1;
+    rep.count("misshaped_config_cases");
+    rep.count(&format!("misshaped_{}", what.replace(' ', "_")));
+    let case = json!({"case": case_no, "configuration_shape": what, "layer": slot.strip_prefix(scratch.path()).unwrap_or(&slot).to_string_lossy()});
+    let needles: Vec<Vec<u8>> = vec![canary.as_bytes().to_vec(), number.to_string().into_bytes()];
+    let mut files = Vec::new();
+    walk(scratch.path(), &mut files);
+    for f in &files {
+        if *f == slot {
+            continue;
+        }
+        let bytes = std::fs::read(f).unwrap_or_default();
+        if needles.iter().any(|n| contains(&bytes, n)) {
+            let rel = f.strip_prefix(scratch.path()).unwrap_or(f).to_string_lossy().to_string();
+            rep.oracle_failure("C19|secret-in-file|misshaped-config", &format!("the secret of a mis-shaped configuration file ({what}) found in {rel}"), case.clone());
+        }
+    }
+    for (w, body) in &responses {
+        if needles.iter().any(|n| contains(body, n)) {
+            rep.oracle_failure("C19|secret-in-http-response|misshaped-config", &format!("the secret of a mis-shaped configuration file ({what}) appears in the response to {w}"), case.clone());
+        }
+    }
+    for v in ENV_VARS {
+        std::env::remove_var(v);
+    }
+}
+
 pub fn run_child(opts: &Opts) -> Report {
     let mut rep = Report::new(
         "C19",
@@ -437,6 +527,10 @@ pub fn run_child(opts: &Opts) -> Report {
     let n = if opts.thorough { 900 } else { 120 } * opts.scale;
     for case_no in 0..n {
         one_case(&mut rep, &mut model, &mut rng, case_no);
+    }
+    let nm = if opts.thorough { 300 } else { 48 } * opts.scale;
+    for case_no in 0..nm {
+        misshaped_case(&mut rep, &mut rng, case_no);
     }
     rep
 }
